@@ -35,3 +35,5 @@ def run(ck):
     conv.getitem_keeps_map(ck, "C17.R6")
     fresh.returned_objects_fresh(ck, "C20.R1")
     funcs.route_selection(ck, "C07.R8")
+    fresh.no_hidden_state(ck, "C20.R8")                  # results depend on the documented state only (no caches / memos)
+    routes.write_funnel(ck, "C01.R1")                   # from_bin / call / setitem forward raw= so that codes are stored exactly
